@@ -1,6 +1,8 @@
 """C03 -- straight-beamline geometry equals its Euclidean definition; two_theta is stable."""
 from __future__ import annotations
 
+import itertools
+
 import z3
 
 from vf import kit, units, core
@@ -73,16 +75,26 @@ def simple_kernels(chk, mod):
                 chk.decided(f'{pre}/frame{stag}', not kit.frame_violations(p), detail=str(kit.frame_violations(p)))
     # Ltotal = L1 + L2 (scalars, same unit)
     chk.function(MOD, 'total_beam_length')
-    for dt in (F64, F32):
-        mk = lambda: {'L1': arg('L1', 'length', dtype=dt, unit=uL), 'L2': arg('L2', 'length', dtype=dt, unit=uL)}
+    # dtypes (also mixed: the sum of a double and a single precision length is double) x operand shapes (one primary path with
+    # per-pixel secondary paths; a primary path per source / run with one detector; both per pixel; each along a dimension of its own)
+    shapes = {'': None, '; shape: L1 scalar, L2 per pixel': lambda n: () if n == 'L1' else ('pixel',), '; shape: L1 per source, L2 scalar': lambda n: ('source',) if n == 'L1' else (),
+              '; shape: both per pixel': lambda n: ('pixel',), '; shape: L1 per source, L2 per pixel': lambda n: ('source',) if n == 'L1' else ('pixel',)}
+    for (d1, d2), (stag, pol) in itertools.product(((F64, F64), (F32, F32), (F64, F32), (F32, F64)), shapes.items()):
+        tag = f'L1:{d1},L2:{d2}{stag}'
+
+        def mk():
+            with kit.dims_policy(pol):
+                return {'L1': arg('L1', 'length', dtype=d1, unit=uL), 'L2': arg('L2', 'length', dtype=d2, unit=uL)}
         paths = chk.explore(lambda: mod.total_beam_length(**mk()), base=base, catch=CATCH)
         for p in paths:
             a = mk()
             ok = p.kind == 'return'
-            chk.decided(f'{MOD}:total_beam_length/no-raise[{dt}]', ok)
+            chk.decided(f'{MOD}:total_beam_length/no-raise[{tag}]', ok, detail=repr(p.value)[:150])
             if ok:
-                chk.prove(f'{MOD}:total_beam_length/sum[{dt}]', hyps_of(p), p.value.si == a['L1'].si + a['L2'].si)
-                chk.decided(f'{MOD}:total_beam_length/dtype[{dt}]', p.value.dtype == dt)
+                chk.prove(f'{MOD}:total_beam_length/sum[{tag}]', hyps_of(p), p.value.si == a['L1'].si + a['L2'].si)
+                chk.decided(f'{MOD}:total_beam_length/dtype[{tag}]', p.value.dtype == (F32 if d1 == d2 == F32 else F64), detail=str(p.value.dtype))
+                chk.decided(f'{MOD}:total_beam_length/dims-are-the-union,frame[{tag}]', set(p.value.dims) == set(a['L1'].dims) | set(a['L2'].dims) and not kit.frame_violations(p),
+                            detail=f'{p.value.dims} {kit.frame_violations(p)}')
 
 
 def _tt_inputs():
@@ -407,6 +419,22 @@ def replay_simple(rec):
     bl = real_module('conversion.beamline')
     rng = np.random.default_rng(5)
     kname = rec['obligation'].split(':')[1].split('/')[0]
+    if kname == 'total_beam_length':
+        # every dtype pair and operand shape of the contract, on the real function
+        mk = lambda dims, dt, v: sc.scalar(v, unit='m', dtype=dt) if not dims else sc.array(dims=list(dims), values=np.array([v, v * 1.5, v * 2.25][:3 if dims != ('source',) else 2]), unit='m', dtype=dt)
+        for d1, d2 in (('float64', 'float64'), ('float32', 'float32'), ('float64', 'float32'), ('float32', 'float64')):
+            for s1, s2 in (((), ()), ((), ('pixel',)), (('source',), ()), (('pixel',), ('pixel',)), (('source',), ('pixel',))):
+                L1, L2 = mk(s1, d1, 2.5), mk(s2, d2, 1.25)
+                try:
+                    got = bl.total_beam_length(L1=L1, L2=L2)
+                    exp = L1 + L2
+                except Exception as e:
+                    return {'reproduced': True, 'inputs': {'L1': f'{d1} dims {s1}', 'L2': f'{d2} dims {s2}'}, 'observed': f'{type(e).__name__}: {e}'}
+                want_dt = 'float32' if d1 == d2 == 'float32' else 'float64'
+                if str(got.dtype) != want_dt or set(got.dims) != set(s1) | set(s2) or not sc.allclose(got, exp.transpose(got.dims) if got.ndim > 1 else exp):
+                    return {'reproduced': True, 'inputs': {'L1': f'{d1} dims {s1}', 'L2': f'{d2} dims {s2}'}, 'observed': f'{got.dtype} {got.dims} {got.values}',
+                            'expected': f'{want_dt} {exp.values}'}
+        return {'reproduced': False}
     for _ in range(20):
         src, sam, det = (sc.vector(rng.normal(size=3) * 10, unit='m') for _ in range(3))
         want = {
